@@ -24,8 +24,8 @@ def generate(repo):
         return nr, cutoff
     ''')
     assert_body(repo, C, '_TabulationCutoff._check_positive', '''
-        if not nr is None and nr <= 0:
-          raise ConfigParserException("'{nr}' in [Tabulation] section of potential definition cannot be 0 (zero) or negative.".format(**self._template_dict))
+        if not nr is None and nr < 2:
+          raise ConfigParserException("'{nr}' in [Tabulation] section of potential definition cannot be less than 2 (one row does not define a grid).".format(**self._template_dict))
         if not dr is None and not (0 < dr < float("inf")):
           raise ConfigParserException("'{dr}' in [Tabulation] section of potential definition cannot be 0 (zero), negative or not a finite number.".format(**self._template_dict))
         if not cutoff is None and not (0 < cutoff < float("inf")):
@@ -50,4 +50,16 @@ def generate(repo):
     src = ast.unparse(load_function(repo, F, 'EAMTabulationFactory.extract_cutoffs'))
     for needle in ('if cp.tabulation.cutoff_rho is None:\n        cutoff_rho = 100.0', 'if cp.tabulation.nrho is None:\n        nrho = 1001', 'return R_Rho_CutoffTuple(r_cutoff.cutoff, r_cutoff.nr, cutoff_rho, nrho)'):
         if needle not in src: raise Refuse('EAMTabulationFactory.extract_cutoffs changed')
+    assert_body(repo, F, 'DLPOLY_PairTabulationFactory.extract_cutoffs', '''
+        cutoffs = super(DLPOLY_PairTabulationFactory, self).extract_cutoffs(cp)
+        if cutoffs.nr % 4 != 0 or cutoffs.nr < 8:
+          raise ConfigurationException("The number of rows in a DL_POLY TABLE file needs to be divisible by 4 (and at least 8). Number of rows specified = {} ".format(cutoffs.nr))
+        return cutoffs
+    ''')
+    assert_body(repo, F, 'LAMMPS_PairTabulationFactory.extract_cutoffs', '''
+        cutoffs = super(LAMMPS_PairTabulationFactory, self).extract_cutoffs(cp)
+        if cutoffs.nr < 3:
+          raise ConfigurationException("A LAMMPS table needs at least two rows, that is nr >= 3 (the r = 0 row is not written). Number of rows specified = {} ".format(cutoffs.nr))
+        return cutoffs
+    ''')
     return {}
